@@ -231,11 +231,6 @@ impl Bytes {
     #[verifier::external_body]
     pub fn copy_from_slice(s: &[u8]) -> (r: Bytes) ensures r@ == s@ { unimplemented!() }
 }
-impl vstd::std_specs::convert::FromSpecImpl<Vec<u8>> for Bytes {
-    open spec fn obeys_from_spec() -> bool { true }
-    open spec fn from_spec(v: Vec<u8>) -> Self { Bytes { v } }
-}
-impl From<Vec<u8>> for Bytes { fn from(v: Vec<u8>) -> (r: Bytes) { Bytes { v } } }
 // A-bytes-23: &bytes[..] is the whole content
 impl vstd::std_specs::core::IndexSpecImpl<core::ops::RangeFull> for Bytes {
     open spec fn index_req(&self, idx: &core::ops::RangeFull) -> bool { true }
@@ -314,7 +309,7 @@ def status_decls(u: Unit):
     u.raw(STATUS_SPEC)
     u.item(S, 'struct', 'Status', edits=[lambda t: t.sub_code('R12', r"Option<Arc<dyn Error \+ Send \+ Sync \+ 'static>>", 'Option<SourceBox>')])
     u.raw(STATUS_DEBUG)
-    u.raw(STATUS_REL)
+    u.raw(STATUS_REL, props=sorted(set(u.props) | {'C02', 'C04', 'C08'}))
 
 
 def status_assumed(u: Unit):
